@@ -558,6 +558,25 @@ def s_pure_functions(tier):
             iv = np.array([0.0, 0.25])
             GEN_FOR[id(iv)] = lambda: np.array([0.25, 0.75])
             sweep(f"discretization.{nm}(n={npts})", lambda iv_, npts=npts, rule=rule: rule(npts, interval=iv_), [iv])
+    # the special branches: zero rotation vector / identity (first-order or limit formulas, where returning a module-level
+    # constant such as the 3x3 identity itself is tempting) - ownership of the result only
+    specials = [("rotations.Exp_SO3(0)", lambda: rot.Exp_SO3(np.zeros(3))), ("rotations.Exp_SE3(0)", lambda: rot.Exp_SE3(np.zeros(6))), ("rotations.T_SO3(0)", lambda: rot.T_SO3(np.zeros(3))),
+                ("rotations.T_SO3_inv(0)", lambda: rot.T_SO3_inv(np.zeros(3))), ("rotations.T_SE3(0)", lambda: rot.T_SE3(np.zeros(6))), ("rotations.Log_SO3(identity)", lambda: rot.Log_SO3(np.eye(3))),
+                ("rotations.Log_SE3(identity)", lambda: rot.Log_SE3(np.eye(4))), ("rotations.Exp_SO3_quat(identity quaternion)", lambda: rot.Exp_SO3_quat(np.array([1.0, 0, 0, 0]))),
+                ("rotations.Exp_SO3_quat(normalize=False)", lambda: rot.Exp_SO3_quat(np.array([1.0, 0, 0, 0]), normalize=False)), ("rotations.SE3inv(identity)", lambda: rot.SE3inv(np.eye(4))),
+                ("algebra.ax2skew(0)", lambda: alg.ax2skew(np.zeros(3))), ("algebra.ax2skew_a()", lambda: alg.ax2skew_a()), ("algebra.skew2ax_A()", lambda: alg.skew2ax_A())]
+    for label, call in specials:
+        try:
+            keep = [np.array(r, copy=True) for r in _arrs(call())]
+            for r in _arrs(call()):
+                if r.flags.writeable and r.size:
+                    r[...] = 12345.0
+            later = list(_arrs(call()))
+            regular = np.asarray(rot.Exp_SO3(np.array([0.3, -0.2, 0.5])))  # a module constant overwritten above shows in every later result
+            own = len(keep) == len(later) and all(np.array_equal(x, y, equal_nan=True) for x, y in zip(keep, later)) and bool(np.allclose(regular.T @ regular, np.eye(3), atol=1e-12))
+        except Exception as e:  # noqa: BLE001
+            own = False
+        out.append(dict(name=f"{label}: a result modified by its caller does not change what a later call returns", ok=own, backend="native-execution (earlier results overwritten)", show=str(own), detail="a later call returned what the caller wrote into an earlier result: the function hands out a shared array (module constant or memo)", replay=None if own else {"function": label}))
     A = rng.normal(size=(3, 3))
     Askew = A - A.T
     GEN_FOR[id(Askew)] = lambda: (lambda B: B - B.T)(rng.normal(size=(3, 3)))
